@@ -283,6 +283,26 @@ class Seeding(Contract):
         h.oblige("faithful.bound-names-are-arguments-and-not-user-names",
                  z3.BoolVal(set(bound) <= args
                             and not (set(bound) & (users | outs))))
+        kvars = set()
+        for k, role in tr.roles.items():
+            if role == "kernel-variables":
+                kvars |= known.get(k, set())
+        unknown = sorted(n for n in [*knl.arg_dict, *knl.temporary_variables,
+                                     *knl.all_inames()] if n not in kvars)
+        # every variable/iname of the kernel was reserved in or handed out by
+        # the kernel's name generator (reduction inames are renamed by loopy
+        # afterwards: those carry loopy's own suffix)
+        raw_unknown = list(unknown)
+        import re as _re
+        unknown = [n for n in unknown
+                   if not (_re.fullmatch(r"(.+)_\d+", n)
+                           and _re.fullmatch(r"(.+)_\d+", n).group(1) in kvars)]
+        h.ctx.notes  # noqa: B018
+        import os
+        if os.environ.get("C15_DEBUG"):
+            print("UNKNOWN", inst["prog"], raw_unknown)
+        h.oblige("faithful.every-kernel-name-went-through-the-generator",
+                 z3.BoolVal(not unknown), info=unknown[:6])
         allnames = [*knl.arg_dict, *knl.temporary_variables, *knl.all_inames()]
         h.oblige("faithful.kernel-names-pairwise-distinct",
                  z3.BoolVal(len(allnames) == len(set(allnames))),
